@@ -332,8 +332,11 @@ def rule_ublank(c: Ctx) -> RuleResult:
               "the one-space padding is stripped without " + ", ".join({"starts": "a leading-space test", "ends": "a trailing-space test",
                                                                       "nonblank": "an explicit not-all-*spaces* test (strip(' ') / != ' ' * n)"}[m] for m in miss)
               + ": a span of spaces only (or padded on one side) would lose characters")
-    if n < 1:
-        raise AnchorError("no blank-sensitive call on a payload and no padding strip found")
+    if not pads:
+        r.add(f"{bt.short}|PAD", c.where(bt, bt.node), bt.short, "token.content = token.content[1:-1]", "violation",
+              "the removal of the one-space padding of a code span is not present in the recognised form (`X[1:-1]` under startswith(' '), "
+              "endswith(' ') and a not-all-spaces test): either the padding is kept, or it is removed by a transform this check cannot "
+              "relate to the three documented conditions")
     r.floor = 1
     return r
 
